@@ -4,6 +4,7 @@ CONSTANTS
   KeyOrd <- Ord4
   InitEx <- Init4
   TO <- TOsmall
+  RevAhead = {0, 1}
   MaxNow = 5
   MaxPkt = 99
   MaxScan = 99
